@@ -8,10 +8,14 @@ package main
 // restart it.
 
 import (
+	"bytes"
 	"fmt"
 	"math/rand"
 	"path/filepath"
+	"runtime/pprof"
+	"strings"
 	"sync"
+	"sync/atomic"
 	"time"
 
 	"github.com/orbs-network/lean-helix-go/services/electiontrigger"
@@ -32,14 +36,19 @@ func (o tgOp) coq() string {
 		return fmt.Sprintf("PRegister %d %d", o.h, o.v)
 	case "stop":
 		return "PStop"
+	case "fire":
+		return "PFire"
+	case "resume":
+		return "PResume"
 	}
 	return "PSettle"
 }
 
 type tgRun struct {
-	mu   sync.Mutex
-	got  [][2]uint64
-	done chan struct{}
+	mu     sync.Mutex
+	got    [][2]uint64
+	done   chan struct{}
+	paused int32 // the reader does not touch the channel while set
 }
 
 func (r *tgRun) count() int {
@@ -49,14 +58,23 @@ func (r *tgRun) count() int {
 }
 
 // runTriggerSeq drives one fresh trigger; returns what the reader received and whether a wait for an expected trigger timed out
-func runTriggerSeq(ops []tgOp, base time.Duration) (got [][2]uint64, expected [][2]uint64) {
+func runTriggerSeq(ops []tgOp, base time.Duration) (got [][2]uint64, expected [][2]uint64, parked int) {
 	tr := Electiontrigger.NewTimerBasedElectionTrigger(base, nil)
 	run := &tgRun{done: make(chan struct{})}
 	stopReader := make(chan struct{})
 	go func() {
 		defer close(run.done)
 		for {
+			if atomic.LoadInt32(&run.paused) == 1 {
+				select {
+				case <-stopReader:
+					return
+				case <-time.After(200 * time.Microsecond):
+				}
+				continue
+			}
 			select {
+			case <-time.After(200 * time.Microsecond): // come back to look at the pause flag
 			case t := <-tr.ElectionChannel():
 				run.mu.Lock()
 				run.got = append(run.got, [2]uint64{uint64(t.Hv.Height()), uint64(t.Hv.View())})
@@ -71,17 +89,36 @@ func runTriggerSeq(ops []tgOp, base time.Duration) (got [][2]uint64, expected []
 	handler := false
 	var ph, pv uint64
 	pending := false // an instance that has not fired yet and was not stopped
+	parkedLive := false // an instance that fired while nobody was reading and has not been cancelled since
 	maxTimeout := base << 2
 	for _, o := range ops {
 		switch o.kind {
 		case "reg":
 			tr.RegisterOnElection(primitives.BlockHeight(o.h), primitives.View(o.v), cb)
 			if !(handler && ph == o.h && pv == o.v) {
-				handler, ph, pv, pending = true, o.h, o.v, true
+				handler, ph, pv, pending, parkedLive = true, o.h, o.v, true, false
 			}
 		case "stop":
 			tr.Stop()
-			handler, pending = false, false
+			handler, pending, parkedLive = false, false, false
+		case "fire": // time passes while nobody reads the channel
+			atomic.StoreInt32(&run.paused, 1)
+			time.Sleep(time.Millisecond)
+			time.Sleep(2*maxTimeout + 5*time.Millisecond)
+			if pending {
+				pending, parkedLive = false, true
+			}
+		case "resume":
+			atomic.StoreInt32(&run.paused, 0)
+			if parkedLive {
+				expected = append(expected, [2]uint64{ph, pv})
+				parkedLive = false
+				deadline := time.Now().Add(2 * time.Second)
+				for run.count() < len(expected) && time.Now().Before(deadline) {
+					time.Sleep(time.Millisecond)
+				}
+			}
+			time.Sleep(3 * time.Millisecond)
 		case "settle":
 			if pending {
 				expected = append(expected, [2]uint64{ph, pv})
@@ -95,9 +132,21 @@ func runTriggerSeq(ops []tgOp, base time.Duration) (got [][2]uint64, expected []
 		}
 	}
 	tr.Stop()
+	atomic.StoreInt32(&run.paused, 0)
+	time.Sleep(3 * time.Millisecond)
 	close(stopReader)
 	<-run.done
-	return run.got, expected
+	// goroutines of the trigger that are still around (parked in triggerElections)
+	for t := 0; t < 100; t++ {
+		var b bytes.Buffer
+		pprof.Lookup("goroutine").WriteTo(&b, 1)
+		parked = strings.Count(b.String(), "Electiontrigger.triggerElections")
+		if parked == 0 {
+			break
+		}
+		time.Sleep(2 * time.Millisecond)
+	}
+	return run.got, expected, parked
 }
 
 func runTrigger(cfg *runCfg) error {
@@ -131,15 +180,26 @@ func runTrigger(cfg *runCfg) error {
 				ops = append(ops, tgOp{"reg", p[0], p[1]})
 			case x < 7:
 				ops = append(ops, tgOp{"stop", 0, 0})
+			case x < 8: // time passes with no reader, then a stop / another registration / nothing, then the reader is back
+				ops = append(ops, tgOp{"fire", 0, 0})
+				switch r.Intn(3) {
+				case 0:
+					ops = append(ops, tgOp{"stop", 0, 0})
+				case 1:
+					p := pairs[r.Intn(len(pairs))]
+					ops = append(ops, tgOp{"reg", p[0], p[1]})
+				}
+				ops = append(ops, tgOp{"resume", 0, 0})
 			default:
 				ops = append(ops, tgOp{"settle", 0, 0})
 			}
 		}
 		ops = append(ops, tgOp{"settle", 0, 0})
 		var got, exp [][2]uint64
+		var parked int
 		for attempt := 0; ; attempt++ {
 			sw := startStallWatch()
-			got, exp = runTriggerSeq(ops, base)
+			got, exp, parked = runTriggerSeq(ops, base)
 			if sw.finish() && attempt < 3 {
 				rep.count("trigger:sequence-repeated-after-machine-stall")
 				continue
@@ -163,11 +223,15 @@ func runTrigger(cfg *runCfg) error {
 			}
 			rep.finding("C19", sig, fmt.Sprintf("operations %v: the channel reader received %v, the property demands %v", desc, got, exp), map[string]interface{}{"ops": desc, "received": got, "expected": exp, "base_timeout_ms": base.Milliseconds()})
 		}
+		if parked > 0 {
+			rep.finding("C19", "fired-callback-not-released", fmt.Sprintf("operations %v: %d goroutine(s) of the trigger are still parked in triggerElections after the final Stop", desc, parked), map[string]interface{}{"ops": desc})
+			rep.finding("C16", "goroutine-leak", fmt.Sprintf("election trigger, operations %v: %d goroutine(s) still parked in triggerElections after Stop", desc, parked), map[string]interface{}{"ops": desc})
+		}
 		cg := make([]string, len(got))
 		for j, g := range got {
 			cg[j] = fmt.Sprintf("(%d, %d)", g[0], g[1])
 		}
-		cases = append(cases, fmt.Sprintf("(%s, %s)", cList(cops), cList(cg)))
+		cases = append(cases, fmt.Sprintf("(%s, %s, %d)", cList(cops), cList(cg), parked))
 		rep.count(fmt.Sprintf("trigger:deliveries-%d", len(got)))
 		if i < 3 {
 			rep.sample(map[string]interface{}{"ops": desc, "received": got}, 3)
